@@ -517,6 +517,12 @@ func (x *Exec) val(v ssa.Value) Val {
 	case *ssa.Global:
 		name := "G_" + sanitize(v.Pkg.Pkg.Name()+"_"+v.Name())
 		et := deref(v.Type())
+		if !strings.HasPrefix(v.Pkg.Pkg.Path(), "google.golang.org/grpc") && types.IsInterface(et) && et.String() == "error" {
+			// sentinel errors of packages outside the module (io.EOF, context.Canceled, ...): never
+			// reassigned after package initialisation, so no call changes them
+			name = "G_const_" + sanitize(v.Pkg.Pkg.Name()+"_"+v.Name())
+			x.assumed["sentinel error variables of packages outside the module (io.EOF, ...) are never reassigned"] = true
+		}
 		return Val{A: &Addr{Kind: aGlobal, Comp: name, Typ: et}}
 	case *ssa.Function:
 		return Val{T: x.funcConst(v), Cl: &Closure{Fn: v}}
